@@ -429,7 +429,7 @@ CHECK = Check(
     rule=('Hypothesis-generated acyclic graphs of 2..10 (thorough 12) user nodes over Constant/Operation/Prior/Simulator/Summary/'
           'Discrepancy with positional, raw-constant and named parents, optional meta/batch_size declarations, observations on '
           'simulators and summaries; any subset of defined node values and defined observed twins requested; any subset of nodes '
-          'supplied through with_values; batch sizes 1..4. Every operation returns the symbolic term of its call, compared with a '
+          'supplied through with_values or through a submit override (optionally after an un-supplied batch on the same handler), 1-3 batches in flight, the empty request; batch sizes 1..4. Every operation returns the symbolic term of its call, compared with a '
           'reference evaluator over the description, including exact per-operation call counts and rejection of graphs whose '
           'observed data depends on a stochastic node. Non-trivial = the request contains an observed twin or a discrepancy, or '
           'with_values cuts off a non-empty ancestor set that then must not run (distinct by hash of request+graph).'),
